@@ -5,7 +5,7 @@
 V=$(pwd); REPO=${VP_RUN_REPO:-/repo}
 if [ "$REPO" != "/repo" ]; then sed -i "s#path = \"/repo\"#path = \"$REPO\"#" $V/harness/Cargo.toml; fi
 export VERIF_REPO=$REPO VERIF_DIR=$V
-declare -A EXTRA=( [C01]="C01 C07" [C02]="C02 C08" [C03]="C03 C12" [C04]="C04 C08" [C07]="C07 C04 C18" [C08]="C08 C09" [C09]="C09 C17" [C13]="C13 C01" [C14]="C14 C03 C04" [C15]="C15 C06 C08" [C05]="C05" [C06]="C06" [C16]="C16" [C17]="C17" [C20]="C20" [C10]="C10" [C11]="C11" [C12]="C12" [C18]="C18" [C19]="C19" )
+declare -A EXTRA=( [C01]="C01 C07" [C02]="C02 C08" [C03]="C03 C12" [C04]="C04 C08" [C07]="C07 C04 C18" [C08]="C08 C09" [C09]="C09 C17" [C13]="C13 C01" [C14]="C14 C03 C04" [C15]="C15 C06 C08" [C05]="C05" [C06]="C06 C02" [C16]="C16" [C17]="C17" [C20]="C20 C16" [C10]="C10" [C11]="C11" [C12]="C12" [C18]="C18" [C19]="C19" )
 for d in $V/seeded/*/; do
   n=$(basename $d); p=${n%-*}
   if [ -n "$ONLY" ] && [[ ! " $ONLY " =~ " $n " ]]; then continue; fi
